@@ -61,14 +61,14 @@ def miri_stage(c):
     harness = os.path.join(c["root"], "harness")
     env = {"MIRIFLAGS": "-Zmiri-disable-isolation", "RUSTFLAGS": "--cfg rscel_verif"}
     # slice 0 alone first (it also builds the interpreter's sysroot and the harness), then the other slices in parallel
-    nslices = 8
-    rc, out = _run(["cargo", "+nightly", "miri", "run", "--offline", "--", "smoke", "12", "2", "12", "0"], harness, env, 3000)
+    nslices = 14
+    rc, out = _run(["cargo", "+nightly", "miri", "run", "--offline", "--", "smoke", "20", "2", "16", "0"], harness, env, 3000)
     outs = [(rc, out)]
     if rc == 0:
         import subprocess
         e2 = dict(os.environ)
         e2.update(env)
-        procs = [subprocess.Popen(["cargo", "+nightly", "miri", "run", "--offline", "--", "smoke", "12", "2", "12", str(k)], cwd=harness, env=e2,
+        procs = [subprocess.Popen(["cargo", "+nightly", "miri", "run", "--offline", "--", "smoke", "20", "2", "16", str(k)], cwd=harness, env=e2,
                                   stdout=subprocess.PIPE, stderr=subprocess.STDOUT, text=True) for k in range(1, nslices)]
         for p in procs:
             try:
